@@ -10,6 +10,10 @@ F = facts.load()
 ids = sorted(fid for fid, f in F.fns.items() if f["kind"] in ("Fn", "AssocFn") and f.get("crate") in build.CRATES and not fid.startswith("<"))
 open(os.path.join(HERE, "known_fns.txt"), "w").write("\n".join(ids) + "\n")
 print(len(ids), "functions")
+# signatures (parameter and return types): lets a renamed / moved function be recognised as the one the rules were confirmed on
+import json
+sig = {fid: [str(l.get("ty")) for l in F.fns[fid]["locals"][:F.fns[fid]["arg_count"] + 1]] for fid in ids}
+open(os.path.join(HERE, "known_sigs.json"), "w").write(json.dumps(sig, indent=0, sort_keys=True))
 # number of closures (incl. coroutine bodies) under every named function, trait impl methods included: a function whose family of
 # closures changed is one whose combinator calls are written out before the rules look at it (lib/inline.py)
 from lib import inline
